@@ -183,7 +183,7 @@ Proof. intros st T. unfold rt_fire_all. apply rt_fire_enough; [exact T|lia]. Qed
 Lemma rt_step_tinv : forall st ev, rt_ev_ok ev -> rt_tinv st ->
   rt_tinv (fst (rt_step st ev)) /\ ~ In RoFuel (snd (rt_step st ev)).
 Proof.
-  intros st ev Hev T. destruct ev as [dt|s m b cfg r| |s m|s m|s m tok|s reason|tmo|]; cbn [rt_step].
+  intros st ev Hev T. destruct ev as [dt|s m b cfg r| |s m|s m|s m tok|s reason|s m|tmo|]; cbn [rt_step].
   - cbn [fst snd]. split; [|intros []]. destruct T as (W & B & F).
     split; [exact W|]. split; [|exact F]. cbn. intros X. specialize (B X). cbn in Hev. lia.
   - unfold rt_send. cbn [fst snd]. split.
@@ -245,6 +245,14 @@ Proof.
       * eapply Permutation_Forall in F; [|exact P]. apply Forall_app in F. tauto.
     + destruct rm as [|n rm]; [intros [X|[]]; discriminate|].
       intros I. apply in_map_iff in I. destruct I as (x & X & _). discriminate.
+  - unfold rt_delete. destruct (sq_remove (rs_q st) s m) as [[[t n] q']|] eqn:Rm; cbn [fst snd].
+    + split; [|intros [X|[]]; discriminate].
+      destruct T as (W & B & F). apply rt_set_q_tinv; [split; [exact W|split; [exact B|exact F]]| | |].
+      * eapply sq_remove_wf'; eauto.
+      * intros _ X. rewrite X in Rm. discriminate.
+      * destruct (rt_nodes_remove _ _ _ _ _ _ Rm) as [P _].
+        eapply Permutation_Forall in F; [|exact P]. inversion F; assumption.
+    + split; [exact T|intros []].
   - unfold rt_io_process.
     pose proof (rt_fire_all_ok st T) as H1. destruct (rt_fire_all st) as [st1 o1].
     destruct H1 as (NF1 & _ & T1 & _). destruct (rt_wait st1) as [w hd].
